@@ -627,7 +627,8 @@ class C2Profile(ConfigBlock):
                 for item in value:
                     if " " in item:
                         option, _, val = item.partition(" ")
-                        val = val[1:-1]
+                        # the bytes from the configuration, so that they are escaped when the profile is written
+                        val = val[1:-1].encode()
                         if option == "CreateThread":
                             exec_options.set_option("createthread_special", val)
                         elif option == "CreateRemoteThread":
